@@ -389,7 +389,41 @@ def run_blake(ctx, p):
     ctx.observe("restr.ctor", "Blake", adm and rep, branch=br, detail=dict(det, accepted_as=six, admissible=adm, reproduces_given=rep))
 
 
+# ---- Kenamond 2: the documented ordering of detonation times, with every parameter of the inequality varied -----------------------
+def gen_k2times(rng, i, tier):
+    R = logu(rng, 0.5, 5)
+    D2 = logu(rng, 0.3, 3)
+    D1 = D2 * uni(rng, 1.1, 4)
+    dets = [R * uni(rng, 2.5, 5), R * uni(rng, 1.1, 2.4), -R * uni(rng, 1.1, 2.4), -R * uni(rng, 2.5, 5)]
+    t3 = [0.0, uni(rng, 0.2, 3), -uni(rng, 0.2, 3)][i % 3]                      # the centre detonator fires at, after, before the time origin
+    slack = [uni(rng, 0.0, 2.0) for _ in range(4)]
+    return dict(geometry=2 + i % 2, R=R, D1=D1, D2=D2, dets=dets, t3=t3, slack=slack, which=int(rng.integers(4)),
+                delta=[-1.0, -1e-6, 1e-6, 1.0, -0.3, 0.3][(i // 3) % 6])
+
+
+def run_k2times(ctx, p):
+    from exactpack.solvers.kenamond import Kenamond2
+    R, D1, D2, dets, t3 = p["R"], p["D1"], p["D2"], p["dets"], p["t3"]
+    scale = R / D2
+    bound = [t3 + R * (1.0 / D1 + 1.0 / D2) - abs(a) / D2 for a in dets]          # documented: t_di >= bound_i
+    td = [bound[k] + p["slack"][k] * scale for k in range(4)]
+    td[p["which"]] = bound[p["which"]] + p["delta"] * scale
+    t_d = [td[0], td[1], t3, td[2], td[3]]
+    valid = p["delta"] > 0
+    br = "t_d%d = bound %+g R/D2, t_d3 %s 0" % ([1, 2, 4, 5][p["which"]], p["delta"], "=" if t3 == 0 else (">" if t3 > 0 else "<"))
+    det = dict(R=R, D1=D1, D2=D2, dets=dets, t_d=t_d, bound=bound)
+    try:
+        s = ctx.make(Kenamond2, geometry=p["geometry"], R=R, D1=D1, D2=D2, dets=list(dets), t_d=list(t_d))
+    except SolverRaised as e:
+        ok = (not valid) and isinstance(e.exc, ValueError)
+        ctx.observe("restr.ctor", "Kenamond2", ok, branch=br + (" (violating: rejected)" if not valid else " (admissible: must be accepted)"),
+                    detail=dict(det, raised=type(e.exc).__name__, message=str(e.exc)[:160]))
+        return
+    ctx.observe("restr.ctor", "Kenamond2", valid, branch=br + (" (admissible: accepted)" if valid else " (violating: must be rejected)"), detail=dict(det, outcome="accepted"))
+
+
 UNITS = [
+    Unit("kenamond2.times", gen_k2times, run_k2times, quick=72, thorough=720, min_nontrivial=60),
     Unit("blake.nonpd", gen_blake, run_blake, quick=15 * len(NONPD), thorough=15 * len(NONPD) * 6, min_nontrivial=100),
     Unit("restriction", gen_restr, run_restr, quick=(len(FLAT) + 12) * 2, thorough=(len(FLAT) + 12) * 12, min_nontrivial=len(FLAT)),
     Unit("domain", gen_dom, run_dom, quick=40, thorough=40, min_nontrivial=30),
